@@ -21,6 +21,7 @@ META = {
     "assumptions": ["x86_64 target"],
     "not_decided": [],
 }
+TECHNIQUE = 'constant value rules, 512-row decision table of finalize (flag non-interference and polarity), who-reads-which-flag rules'
 
 
 def run(ctx, FS):
